@@ -84,7 +84,8 @@ def main():
         subprocess.run(["tar", "-x", "-C", verif], stdin=p.stdout, check=True)
         p.wait()
         gm = verif + "/harness/go.mod"
-        open(gm, "w").write(open(gm).read().replace("=> /repo", "=> " + repo))
+        mod = open(gm).read().replace("=> /repo", "=> " + repo)
+        open(gm, "w").write(mod)
         while True:
             try:
                 name, f, ln, kind = q.get_nowait()
@@ -107,6 +108,9 @@ def main():
                     except subprocess.TimeoutExpired:
                         code, text = 2, "TIMEOUT"
                     ran.append("%s=%d" % (c, code))
+                    if code == 2 and "BUILD-FAILED" in text:
+                        verdict = "harness-build-failed"
+                        break
                     if code == 1:
                         sub = [l.strip() for l in text.splitlines() if "sub-check:" in l]
                         verdict = "killed:%s:%s" % (c, sub[0].replace("sub-check:", "").strip() if sub else "?")
